@@ -94,7 +94,7 @@ Proof. exact sep2d_eq. Qed.
 Print Assumptions C29_guard_uses_C28_separated.
 
 (* Non-vacuity: a crossing, a T-junction, a collinear overlap and a shared end point;
-   the guard holds, 10 children before and 9 edges after uniquification; the pair (0,1)
+   the guard holds, 10 children before and 8 edges after uniquification; the pair (0,1)
    is a candidate answered with the single point (2,2). *)
 Definition ex_segs : list seg :=
   [ ((0, 0), (4, 4), [7%Z]);  ((0, 4), (4, 0), [8%Z]);  ((2, 2), (2, 0), [9%Z]);
@@ -102,7 +102,7 @@ Definition ex_segs : list seg :=
 
 Example C29_nonvacuous :
   guard tol8 ex_segs = true /\
-  (exists pre out, split tol8 ex_segs = Edges pre out /\ length pre = 10%nat /\ length out = 9%nat) /\
+  (exists pre out, split tol8 ex_segs = Edges pre out /\ length pre = 10%nat /\ length out = 8%nat) /\
   new_pts (hits tol8 ex_segs) <> [] /\
   (exists gi gj, In ((0%nat, gi), (1%nat, gj)) (cand_pairs tol8 ex_segs) /\
                  exists q, isect_of tol8 ((0%nat, gi), (1%nat, gj)) = R2Pt q /\ peq q (2, 2)).
@@ -111,7 +111,7 @@ Proof.
   - destruct (split tol8 ex_segs) as [pre out|e] eqn:E.
     + exists pre, out. split; [reflexivity|].
       assert (L : match split tol8 ex_segs with
-                  | Edges p o => (length p =? 10)%nat && (length o =? 9)%nat
+                  | Edges p o => (length p =? 10)%nat && (length o =? 8)%nat
                   | Raised _ => false end = true) by (vm_compute; reflexivity).
       rewrite E in L. apply andb_prop in L. destruct L as [L1 L2].
       apply Nat.eqb_eq in L1, L2. split; assumption.
